@@ -81,7 +81,9 @@ type Err struct {
 
 func (e *Err) Error() string { return fmt.Sprintf("ref error class %d: %s", e.Class, e.Msg) }
 
-func errf(c ErrClass, f string, a ...interface{}) *Err { return &Err{Class: c, Msg: fmt.Sprintf(f, a...)} }
+func errf(c ErrClass, f string, a ...interface{}) *Err {
+	return &Err{Class: c, Msg: fmt.Sprintf(f, a...)}
+}
 
 // IsUndefined reports whether err marks a case outside the quantifier.
 func IsUndefined(err error) bool {
@@ -110,11 +112,11 @@ var StrictKinds = false
 // New makes an evaluator over st.
 func New(st *facts.State) *Env { return &Env{St: st, Eff: &Effects{}} }
 
-func vInt(i int64, k reflect.Kind) Val   { return Val{K: KInt, I: i, GK: k} }
+func vInt(i int64, k reflect.Kind) Val     { return Val{K: KInt, I: i, GK: k} }
 func vFloat(f float64, k reflect.Kind) Val { return Val{K: KFloat, F: f, GK: k} }
-func vStr(s string) Val                  { return Val{K: KStr, S: s} }
-func vBool(b bool) Val                   { return Val{K: KBool, B: b} }
-func vTime(t time.Time) Val              { return Val{K: KTime, T: t} }
+func vStr(s string) Val                    { return Val{K: KStr, S: s} }
+func vBool(b bool) Val                     { return Val{K: KBool, B: b} }
+func vTime(t time.Time) Val                { return Val{K: KTime, T: t} }
 
 var timeType = reflect.TypeOf(time.Time{})
 
